@@ -19,6 +19,16 @@ func init() {
 			// a term is iterated through the iterator Start returns: a step must not be consumed twice
 			c.guard("SEQ.GEN", s.ruleGenHist)
 			c.guard("SEQ.LAZY", s.ruleLazyIters)
+			c.keep(func(o Obligation) bool {
+				if o.Rule == "SEQ.GEN" { // iterating a term = advancing and reading its result; Send/Current are C09's
+					return strings.HasPrefix(o.Construct, "MoveNext") || strings.HasPrefix(o.Construct, "Result") || o.Construct == "coverage"
+				}
+				return true
+			})
+			c.min("SEQ.ROLE", 5)
+			c.min("SEQ.FOR", 6)
+			c.min("SEQ.OVERLAP", 2)
+			c.min("SEQ.GEN", 4)
 		},
 	})
 }
@@ -26,7 +36,7 @@ func init() {
 func init() {
 	register(propSpec{
 		ID: "C09",
-		Explanation: "The iterator protocol is decided as tables extracted from the source of the generator type returned by seq.Start: MoveNext and Send are abstractly evaluated for every combination of started in {false,true}, pending resumption nil/non-nil and nil/non-nil result of each resumption, Current and Result for both; the calls made (which resumption, with which argument), the final contents of the generator's fields and the returned values are compared with the reference protocol of the property (exhaustion absorbing with no generator code run, Current a pure read of the value of the latest successful advance and zero after exhaustion, Send auto-start and value passing, Result recorded by Start's terminal continuation). Every clause of C09 is a row of these tables.",
+		Explanation: "The iterator protocol is decided observationally: seq.Start(opaque body) is evaluated abstractly and the concrete iterator it returns is driven through every history of MoveNext / Send(v) / Current / Result up to a depth bound (5 quick, 8 thorough; equal abstract states are merged), the generator body being an oracle that yields (storing the pending step as Bind does) or returns at every step it is run. After each operation the returned values and which piece of generator code ran with which received value are compared with the protocol of the property: an exhausted iterator runs nothing and reports false; Send primes only a never-advanced iterator and passes its value to the pending yield; Current is the last delivered value (zero before the first advance and after exhaustion) and stores nothing; Result is the returned value once the generator has completed. Independent of how the generator represents its state.",
 		Trusted: []string{"Go semantics of closures and calls", "go/ssa construction (x/tools v0.29.0)"},
 		Run: func(c *Ctx) {
 			s := newSeqRT(c)
@@ -83,6 +93,8 @@ func init() {
 					return strings.Contains(o.Construct, "wrapped in a thunk")
 				case "RW.TMPL.HOIST":
 					return false
+				case "SEQ.GEN": // which step runs in which advancing call; Current/Result are C09's
+					return strings.HasPrefix(o.Construct, "MoveNext") || strings.HasPrefix(o.Construct, "Send") || o.Construct == "coverage"
 				case "RW.TMPL.RETURN":
 					return !strings.HasPrefix(o.Construct, "nested ordinary closure")
 				case "OPT.ETA":
